@@ -34,6 +34,15 @@ End Analyze.
 Definition lateral_body (k : nat) : list acc :=
   mkAcc Wr (Idx "resultSetList" k) [] :: (if Nat.eqb k 0 then [mkAcc Wr (Var "hfields") []] else []).
 
+(* ---- reference_scope.go: the field-index cache of OUTER records ------------------------------------
+   CreateScopeForRecordEvaluation copies the outer ReferenceRecords - and with them the pointer to
+   their FieldIndexCache - into the scope of every goroutine.  While the goroutines of an inner
+   query (a correlated subquery, a LATERAL operand) evaluate a reference to an outer field they call
+   cache.Get (reads exprs/indices/m) and, when the expression is not cached yet, cache.Add (appends /
+   converts the slices to a map), with no lock.  misses k: evaluating record k does not find it. *)
+Definition outer_cache_body (misses : nat -> bool) (k : nat) : list acc :=
+  mkAcc Rd (Var "outer.cache") [] :: (if misses k then [mkAcc Wr (Var "outer.cache") []] else []).
+
 (* ---- load_view.go readRecordSet / loadViewFromJsonLinesFile ----------------------------------------
    thread 1 = consumer (go#0): for { row, ok := <-rowch; ...; if 0 < fileSize && 0 < pos && ... ;
                                       recordSet = append(recordSet, record) }; defer: err == nil?; panicCh <- true
